@@ -1138,7 +1138,16 @@ def num_method(ev, x: Num, name, args, kwargs, fr, node):
     if name in ("ravel", "flatten", "squeeze", "view", "item", "tolist"):
         return x
     if name == "isclose":
-        return CondV(sp.Ne(F["TClose"](x.expr, args[0].expr, *(a.expr for a in args[1:])), 0))
+        other = args[0]
+        atol = args[1] if len(args) > 1 else kwargs.get("atol")
+        try:
+            d = sp.simplify((x.expr - other.expr) * UNITS["Hz"])
+            tol = sp.simplify(atol.expr * UNITS["Hz"]) if isinstance(atol, Num) else None
+            if d.is_number and d.is_real and tol is not None and tol.is_number:
+                return BoolV(bool(abs(d) <= tol))
+        except Exception:
+            pass
+        return CondV(sp.Ne(F["TClose"](x.expr, other.expr, *(a.expr for a in args[1:])), 0))
     if name == "__array_ufunc__":
         # falling back to astropy's Quantity machinery: a single-double result
         ev.trace.append(("fallback", [str(a)[:60] for a in args[:2]], node))
@@ -1212,8 +1221,17 @@ def reshape(ev, x: Num, shp, fr, node):
                tag=x.tag, dtype=x.dtype)
 
 
+def _is_mask(idx):
+    return isinstance(idx, NdArr) and idx.items and all(isinstance(b, BoolV) for b in idx.items)
+
+
 def nd_getitem(ev, x: NdArr, idx, fr, node):
     from .symeval import Raised
+    if _is_mask(idx) and idx.shape == x.shape:
+        sel = [v for v, b in zip(x.items, idx.items) if b.b]
+        out = NdArr((len(sel),), sel)
+        out.dtype = getattr(x, "dtype", None)
+        return out
     items = _norm_index(ev, idx)
     import itertools
     # build selection per axis
@@ -1330,6 +1348,19 @@ def nd_permute(x: NdArr, order):
 def nd_setitem(ev, x: NdArr, idx, v, fr, node):
     """Basic-index store into an explicit array (ints and slices; scalar or same-shape value)."""
     import itertools
+    if _is_mask(idx) and idx.shape == x.shape:
+        ev.trace.append(("nd-store", x, idx, v, node))
+        pos = [i for i, b in enumerate(idx.items) if b.b]
+        if isinstance(v, NdArr):
+            if len(v.items) != len(pos):
+                from .symeval import Raised
+                raise Raised("ValueError", node, "shape mismatch in masked assignment")
+            for i, val in zip(pos, v.items):
+                x.items[i] = val
+        else:
+            for i in pos:
+                x.items[i] = v
+        return
     items = _norm_index(ev, idx)
     if len(items) > x.ndim:
         from .symeval import Raised
@@ -1440,10 +1471,43 @@ def _minmax(fn):
             if not isinstance(v, Num):
                 ev.unsupported(f"min/max over {v!r}", node, fr)
             es.append(v.expr)
+        kinds = {getattr(v, "kind", "number") for v in vals if isinstance(v, Num)}
+        kind = kinds.pop() if len(kinds) == 1 else "number"
         if all(e.is_number for e in es):
-            return Num(fn(*es))
-        return Num(fn(*es, evaluate=False))
+            return Num(fn(*es), kind=kind)
+        if kind in ("time", "quantity") and len(es) <= 4:
+            try:
+                scaled = [sp.simplify(e * UNITS["Hz"]) for e in es]
+                if all(x.is_number for x in scaled):
+                    return Num(fn(*scaled) / UNITS["Hz"], kind=kind)
+            except Exception:
+                pass
+        return Num(fn(*es, evaluate=False), kind=kind)
     return h
+
+
+def _sort_key(ev, v, node, fr):
+    if isinstance(v, StrV):
+        return (0, v.s)
+    if isinstance(v, Num):
+        e = sp.simplify(v.expr * UNITS["Hz"]) if v.kind == "time" or (v.expr.free_symbols & UNIT_SYMS) else v.expr
+        if e.is_number and e.is_real:
+            return (1, sp.Rational(e) if e.is_Rational else float(e))
+    if isinstance(v, TupleV):
+        return (2, tuple(_sort_key(ev, x, node, fr) for x in v.items))
+    ev.unsupported("sorting values whose order is not decided", node, fr)
+
+
+def h_sorted(ev, args, kwargs, fr, node):
+    items = ev.iterate(args[0], fr, node)
+    keyf = kwargs.get("key")
+    rev = kwargs.get("reverse")
+    keyed = []
+    for it in items:
+        kv = ev.apply(keyf, [it], {}, fr, node) if keyf is not None and not isinstance(keyf, NoneV) else it
+        keyed.append((_sort_key(ev, kv, node, fr), it))
+    idx = sorted(range(len(keyed)), key=lambda i: keyed[i][0], reverse=bool(isinstance(rev, BoolV) and rev.b))
+    return ListV([keyed[i][1] for i in idx])
 
 
 def h_maketrans(ev, args, kwargs, fr, node):
@@ -2431,7 +2495,8 @@ EXT = {
     "builtins.bool": lambda ev, a, k, fr, n: (lambda t: BoolV(t) if t in (True, False) else CondV(t))(ev.truth(a[0], fr, n)),
     "builtins.str": lambda ev, a, k, fr, n: h_str(ev, a, k, fr, n),
     "numpy.vectorize": h_vectorize,
-    "builtins.sorted": lambda ev, a, k, fr, n: ListV(sorted(ev.iterate(a[0], fr, n), key=lambda v: getattr(v, "s", str(v)))),
+    "builtins.sorted": lambda ev, a, k, fr, n: h_sorted(ev, a, k, fr, n),
+    "builtins.reversed": lambda ev, a, k, fr, n: ListV(list(reversed(ev.iterate(a[0], fr, n)))),
     "builtins.id": lambda ev, a, k, fr, n: Num(0), "builtins.hex": lambda ev, a, k, fr, n: StrV("0x0"),
     "builtins.round": h_round,
     "builtins.str.maketrans": lambda ev, a, k, fr, n: h_maketrans(ev, a, k, fr, n),
